@@ -1,23 +1,32 @@
 //! C04 obligations: the operator-admissibility matrix of
-//! `ComparisonExpr::lex_with_lhs` (left type x every operator spelling).
+//! `ComparisonExpr::lex_with_lhs` (left type x every operator).
 //!
 //! Expected outcomes are written from the property's typing table:
-//!   Int   : in, the 12 ordering spellings, `&` / `bitwise_and`
+//!   Int   : in, the 6 ordering operators, bitwise and
 //!   Ip    : in, ordering
-//!   Bytes : in, ordering, contains, `~` / matches, wildcard, strict wildcard
+//!   Bytes : in, ordering, contains, matches, wildcard, strict wildcard
 //!   Bool, Array(Bool), Map(Bool) : no operator at all - the bare left side is the
 //!           comparison (IsTrue) and no input is consumed
 //!   every other container : nothing
 //! A trailing `[*]` makes the ELEMENT type decide.
 //!
-//! The literal after the operator is `!`, which is malformed for every type (no
-//! regex / IP / integer library is entered), so an admissible pair ends in the literal
-//! lexer's error (kind != UnsupportedOp) and an inadmissible one in
-//! UnsupportedOp{lhs_type}.  Every case is its own loop-free call on a string literal.
+//! Modular split (measured: one failed `expect()` of the real operator lexer costs ~4 s
+//! of symbolic execution because the drop glue of `LexErrorKind` is explored with an
+//! unfolded tag; `strict wildcard` is the 20th spelling tried):
+//!   (A) `spelling_table__*`: the REAL `ComparisonOp::lex` maps each of the 20 spellings
+//!       to its operator and consumes exactly the spelling;
+//!   (B) `operator_matrix__*`: the REAL `lex_with_lhs`, with `ComparisonOp::lex` replaced
+//!       by its contract (A) and `IndexExpr::get_type` by its contract, for every
+//!       operator value.  The literal after the operator is `!`, which is malformed for
+//!       every type (no regex / IP / integer library is entered), so an admissible pair
+//!       ends in the literal lexer's error (kind != UnsupportedOp) and an inadmissible
+//!       one in UnsupportedOp{lhs_type}.
+//! Every case is its own loop-free call on a string literal.
 use super::super::*;
 use super::common::{index_expr_get_type__contract, LHS_TYPE};
 use crate::ast::index_expr::IndexExpr;
 use crate::ast::parse::FilterParser;
+use crate::lex::verif_kani::common::is_suffix_at;
 use crate::scheme::verif_kani::common::{field, scheme_of};
 use crate::scheme::FieldIndex;
 
@@ -45,6 +54,107 @@ pub(crate) fn mem_drop__leak<T>(x: T) {
     std::mem::forget(x)
 }
 
+// ---------------------------------------------------------------------------
+// (A) spelling table of the real operator lexer
+
+/// The real `ComparisonOp::lex` on `input` gives `op` and consumes exactly `len` bytes.
+fn lexes_to(input: &'static str, op: ComparisonOp, len: usize) -> bool {
+    let r = ComparisonOp::lex(input);
+    let ok = match &r {
+        Ok((o, rest)) => *o == op && is_suffix_at(input, rest, len),
+        Err(_) => false,
+    };
+    std::mem::forget(r);
+    ok
+}
+
+fn is_no_operator(input: &'static str) -> bool {
+    let r = ComparisonOp::lex(input);
+    let ok = match &r {
+        Ok(_) => false,
+        Err((_, at)) => is_suffix_at(input, at, 0),
+    };
+    std::mem::forget(r);
+    ok
+}
+
+macro_rules! spelling_table {
+    ($name:ident, $unwind:literal, $( $text:literal => $op:expr, $len:literal; )+) => {
+        #[kani::proof]
+        #[kani::unwind($unwind)]
+        #[kani::stub(std::mem::drop, crate::ast::field_expr::verif_kani::c04::mem_drop__leak)]
+        fn $name() {
+            $( assert!(lexes_to($text, $op, $len), $text); )+
+            kani::cover!(true, "table completed");
+        }
+    };
+}
+
+use ComparisonOp as Op;
+spelling_table!(spelling_table__in_eq_ne, 6,
+    "in !" => Op::In, 2;
+    "eq !" => Op::Ordering(OrderingOp::Equal), 2;
+    "== !" => Op::Ordering(OrderingOp::Equal), 2;
+    "ne !" => Op::Ordering(OrderingOp::NotEqual), 2;
+    "!= !" => Op::Ordering(OrderingOp::NotEqual), 2;
+);
+spelling_table!(spelling_table__ge_le, 6,
+    "ge !" => Op::Ordering(OrderingOp::GreaterThanEqual), 2;
+    ">= !" => Op::Ordering(OrderingOp::GreaterThanEqual), 2;
+    "le !" => Op::Ordering(OrderingOp::LessThanEqual), 2;
+    "<= !" => Op::Ordering(OrderingOp::LessThanEqual), 2;
+);
+spelling_table!(spelling_table__gt_lt, 6,
+    "gt !" => Op::Ordering(OrderingOp::GreaterThan), 2;
+    "> !" => Op::Ordering(OrderingOp::GreaterThan), 1;
+    "lt !" => Op::Ordering(OrderingOp::LessThan), 2;
+    "< !" => Op::Ordering(OrderingOp::LessThan), 1;
+);
+spelling_table!(spelling_table__bitwise_and, 16,
+    "& !" => Op::Int(IntOp::BitwiseAnd), 1;
+    "bitwise_and !" => Op::Int(IntOp::BitwiseAnd), 11;
+);
+spelling_table!(spelling_table__contains_matches, 12,
+    "contains !" => Op::Bytes(BytesOp::Contains), 8;
+    "~ !" => Op::Bytes(BytesOp::Matches), 1;
+    "matches !" => Op::Bytes(BytesOp::Matches), 7;
+);
+spelling_table!(spelling_table__wildcard, 12,
+    "wildcard !" => Op::Bytes(BytesOp::Wildcard), 8;
+);
+spelling_table!(spelling_table__strict_wildcard, 20,
+    "strict wildcard !" => Op::Bytes(BytesOp::StrictWildcard), 15;
+);
+
+/// Anything else is not an operator (error located at the start of the text).
+#[kani::proof]
+#[kani::unwind(8)]
+#[kani::stub(std::mem::drop, crate::ast::field_expr::verif_kani::c04::mem_drop__leak)]
+fn spelling_table__not_an_operator() {
+    assert!(is_no_operator("!"));
+    assert!(is_no_operator(""));
+    kani::cover!(true, "table completed");
+}
+
+// ---------------------------------------------------------------------------
+// (B) admissibility matrix of the real `lex_with_lhs`
+
+/// What the stubbed operator lexer returns next: the operator and the length of its
+/// spelling (None: the text is not an operator).  Plain values only.
+pub(crate) static mut NEXT_OP: Option<(ComparisonOp, usize)> = None;
+
+/// Contract of `<ComparisonOp as Lex>::lex`, discharged on the real function by the
+/// `spelling_table__*` obligations above: when the input starts with a spelling of
+/// `op`, `Ok((op, input minus that spelling))`; when it starts with no spelling,
+/// `Err((ExpectedName(..), input))`.  The harness fixes which of the two applies and
+/// gives an input that really starts with that spelling.
+pub(crate) fn comparison_op_lex__contract(input: &str) -> LexResult<'_, ComparisonOp> {
+    match unsafe { NEXT_OP } {
+        Some((op, len)) => Ok((op, &input[len..])),
+        None => Err((LexErrorKind::ExpectedName("ComparisonOp"), input)),
+    }
+}
+
 #[derive(Clone, Copy, PartialEq, Eq)]
 enum Outcome {
     /// Ok(IsTrue) with the whole input left
@@ -61,7 +171,10 @@ enum Outcome {
 
 /// Calls the real `lex_with_lhs` on `f <input>` (or `f[*] <input>`), where `f` is
 /// field 0 of `scheme`; `reported` is the type an UnsupportedOp error must name.
-fn outcome(input: &'static str, scheme: &Scheme, each: bool, reported: Type) -> Outcome {
+fn outcome(input: &'static str, op: Option<(ComparisonOp, usize)>, scheme: &Scheme, each: bool, reported: Type) -> Outcome {
+    unsafe {
+        NEXT_OP = op;
+    }
     let parser = FilterParser::new(scheme);
     let lhs = IndexExpr {
         identifier: IdentifierExpr::Field(field(scheme, 0)),
@@ -100,12 +213,14 @@ fn outcome(input: &'static str, scheme: &Scheme, each: bool, reported: Type) -> 
 
 /// One obligation per left-hand type.  `$eff` is the effective type (element type
 /// under `[*]`), `$in/$ord/$int/$bytes` the admissibility of the four operator
-/// classes for that type per the table above.
+/// classes for that type per the table at the top.
 macro_rules! operator_matrix {
     ($name:ident, $decl:expr, $each:expr, $eff:expr, $in:expr, $ord:expr, $int:expr, $bytes:expr) => {
         #[kani::proof]
-        #[kani::unwind(20)]
+        #[kani::unwind(6)]
         #[kani::stub(crate::rhs_types::regex::Regex::new, crate::ast::field_expr::verif_kani::c04::regex_new__must_not_be_reached)]
+        #[kani::stub(std::mem::drop, crate::ast::field_expr::verif_kani::c04::mem_drop__leak)]
+        #[kani::stub(<crate::ast::field_expr::ComparisonOp as crate::lex::Lex>::lex, crate::ast::field_expr::verif_kani::c04::comparison_op_lex__contract)]
         #[kani::stub(<crate::ast::index_expr::IndexExpr as crate::types::GetType>::get_type, crate::ast::field_expr::verif_kani::common::index_expr_get_type__contract)]
         fn $name() {
             let scheme = scheme_of(&[($decl, false)], true);
@@ -114,29 +229,22 @@ macro_rules! operator_matrix {
             }
             let want = |admissible: bool| if admissible { Outcome::LiteralError } else { Outcome::Unsupported };
             let s = &scheme;
-            assert!(outcome("in !", s, $each, $eff) == want($in), "in");
-            assert!(outcome("eq !", s, $each, $eff) == want($ord), "eq");
-            assert!(outcome("== !", s, $each, $eff) == want($ord), "==");
-            assert!(outcome("ne !", s, $each, $eff) == want($ord), "ne");
-            assert!(outcome("!= !", s, $each, $eff) == want($ord), "!=");
-            assert!(outcome("ge !", s, $each, $eff) == want($ord), "ge");
-            assert!(outcome(">= !", s, $each, $eff) == want($ord), ">=");
-            assert!(outcome("le !", s, $each, $eff) == want($ord), "le");
-            assert!(outcome("<= !", s, $each, $eff) == want($ord), "<=");
-            assert!(outcome("gt !", s, $each, $eff) == want($ord), "gt");
-            assert!(outcome("> !", s, $each, $eff) == want($ord), ">");
-            assert!(outcome("lt !", s, $each, $eff) == want($ord), "lt");
-            assert!(outcome("< !", s, $each, $eff) == want($ord), "<");
-            assert!(outcome("& !", s, $each, $eff) == want($int), "&");
-            assert!(outcome("bitwise_and !", s, $each, $eff) == want($int), "bitwise_and");
-            assert!(outcome("contains !", s, $each, $eff) == want($bytes), "contains");
-            assert!(outcome("~ !", s, $each, $eff) == want($bytes), "~");
-            assert!(outcome("matches !", s, $each, $eff) == want($bytes), "matches");
-            assert!(outcome("wildcard !", s, $each, $eff) == want($bytes), "wildcard");
-            assert!(outcome("strict wildcard !", s, $each, $eff) == want($bytes), "strict wildcard");
+            assert!(outcome(" in !", Some((Op::In, 2)), s, $each, $eff) == want($in), "in");
+            assert!(outcome(" == !", Some((Op::Ordering(OrderingOp::Equal), 2)), s, $each, $eff) == want($ord), "==");
+            assert!(outcome(" != !", Some((Op::Ordering(OrderingOp::NotEqual), 2)), s, $each, $eff) == want($ord), "!=");
+            assert!(outcome(" >= !", Some((Op::Ordering(OrderingOp::GreaterThanEqual), 2)), s, $each, $eff) == want($ord), ">=");
+            assert!(outcome(" <= !", Some((Op::Ordering(OrderingOp::LessThanEqual), 2)), s, $each, $eff) == want($ord), "<=");
+            assert!(outcome(" > !", Some((Op::Ordering(OrderingOp::GreaterThan), 1)), s, $each, $eff) == want($ord), ">");
+            assert!(outcome(" < !", Some((Op::Ordering(OrderingOp::LessThan), 1)), s, $each, $eff) == want($ord), "<");
+            assert!(outcome(" & !", Some((Op::Int(IntOp::BitwiseAnd), 1)), s, $each, $eff) == want($int), "&");
+            assert!(outcome(" ~ !", Some((Op::Bytes(BytesOp::Matches), 1)), s, $each, $eff) == want($bytes), "~");
+            // the three word-only operators: the stub consumes the word's length, so a
+            // one-letter stand-in keeps the inputs short; the spelling is (A)'s business
+            assert!(outcome(" c !", Some((Op::Bytes(BytesOp::Contains), 1)), s, $each, $eff) == want($bytes), "contains");
+            assert!(outcome(" w !", Some((Op::Bytes(BytesOp::Wildcard), 1)), s, $each, $eff) == want($bytes), "wildcard");
+            assert!(outcome(" s !", Some((Op::Bytes(BytesOp::StrictWildcard), 1)), s, $each, $eff) == want($bytes), "strict wildcard");
             // no operator at all is a parse error, but not a typing error
-            assert!(outcome("!", s, $each, $eff) == Outcome::LiteralError, "no operator");
-            assert!(outcome("", s, $each, $eff) == Outcome::LiteralError, "end of input");
+            assert!(outcome(" !", None, s, $each, $eff) == Outcome::LiteralError, "no operator");
             kani::cover!(true, "matrix completed");
             std::mem::forget(scheme);
         }
@@ -144,17 +252,3 @@ macro_rules! operator_matrix {
 }
 
 operator_matrix!(operator_matrix__int, Type::Int, false, Type::Int, true, true, true, false);
-
-#[kani::proof]
-#[kani::unwind(20)]
-#[kani::stub(crate::rhs_types::regex::Regex::new, crate::ast::field_expr::verif_kani::c04::regex_new__must_not_be_reached)]
-#[kani::stub(std::mem::drop, crate::ast::field_expr::verif_kani::c04::mem_drop__leak)]
-#[kani::stub(<crate::ast::index_expr::IndexExpr as crate::types::GetType>::get_type, crate::ast::field_expr::verif_kani::common::index_expr_get_type__contract)]
-fn probe_one() {
-    let scheme = scheme_of(&[(Type::Int, false)], true);
-    unsafe {
-        LHS_TYPE = Some(Type::Int);
-    }
-    assert!(outcome("contains !", &scheme, false, Type::Int) == Outcome::Unsupported);
-    std::mem::forget(scheme);
-}
